@@ -126,8 +126,9 @@ def run(chk, tier):
                     if c.strat == 'Paris':
                         tail = [(n, vshow(N.simp(v))) for n, v in tlog][order.index('checksum') + 1:] if 'checksum' in order else None
                         ckb = r'\[byte\(%s, 0\), byte\(%s, 1\)\]' % (re.escape(first_ck), re.escape(first_ck))
-                        if not (tail and len(tail) == 2 and tail[0] == ('checksum', 'seq') and tail[1][0] == 'payload' and re.fullmatch(ckb, tail[1][1])):
-                            problems['R3'].append('Paris swap must be set_checksum(sequence) then set_payload(previous checksum, big-endian): %s' % [(n, v[:50]) for n, v in (tail or [])])
+                        # the two writes touch different words and both values are read before either write: they may come in either order
+                        if not (tail and len(tail) == 2 and sorted(n for n, _ in tail) == ['checksum', 'payload'] and dict(tail)['checksum'] == 'seq' and re.fullmatch(ckb, dict(tail)['payload'])):
+                            problems['R3'].append('Paris swap must be set_checksum(sequence) and set_payload(previous checksum, big-endian), nothing else: %s' % [(n, v[:50]) for n, v in (tail or [])])
                         if vshow(N.simp(eng.pkt_get(s, tp, 'checksum'))) != 'seq':
                             problems['R6'].append('Paris: the UDP checksum field on the wire is %s, not the sequence' % vshow(eng.pkt_get(s, tp, 'checksum'))[:40])
                     elif order[-1:] != ['checksum'] or order.count('checksum') != 1:
@@ -293,9 +294,10 @@ def run(chk, tier):
     st = St()
     e1 = Engine(prog, inline_depth=0)
     outs = e1.run(fc, [e1.sym_ref(st, 'config')], st)
-    first = [[(vshow(a), v) for a, v, _ in o.st.decisions][:1] for o in outs]
-    rej = [o for o in outs if [(vshow(a), v) for a, v, _ in o.st.decisions][:1] == [('Gt(config.packet_size.0, %d)' % core_max, 1)]]
-    if rej and all(vshow(o.value).startswith('Result::Err(Error::InvalidPacketSize(') for o in rej) and all(f_ and f_[0][0] == 'Gt(config.packet_size.0, %d)' % core_max for f_ in first):
+    gkey = canon('Gt(config.packet_size.0, %d)' % core_max, 1)[0]       # any spelling of the comparison
+    first = [[canon(vshow(a), v) for a, v, _ in o.st.decisions if isinstance(v, int)][:1] for o in outs]
+    rej = [o for o, f_ in zip(outs, first) if f_ == [canon('Gt(config.packet_size.0, %d)' % core_max, 1)]]
+    if rej and all(vshow(o.value).startswith('Result::Err(Error::InvalidPacketSize(') for o in rej) and all(f_ and f_[0][0] == gkey for f_ in first):
         chk.ok('R4', 'Channel::connect:guard', 'packet_size > MAX_PACKET_SIZE → Err(InvalidPacketSize), checked first')
     else:
         chk.fail('R4', 'Channel::connect:guard', fn_loc(fc), 'Channel::connect does not reject packet sizes above MAX_PACKET_SIZE up front', key='R4|Channel::connect|guard')
